@@ -134,7 +134,7 @@ def G(name, src, entry, enforce=None, replace=None, link=None, defs=None, loops=
       unwind=None, unwindset=None, flags=None, tier="quick", bounded=None, timeout=300,
       mem=12, functions=None, finding=None, replay="native", solver=None, noreach=False,
       stubs=None, object_bits=None, note=None, selftest=None, only_finding=None,
-      enforce_none=False, genbody=None, cflags=None, dfcc=True, replace_calls=None, split=None, drop_unused=False):
+      enforce_none=False, genbody=None, cflags=None, dfcc=True, replace_calls=None, split=None, drop_unused=False, pre_unwind=None):
     enforce = enforce or []
     if isinstance(enforce, str):
         enforce = [enforce]
@@ -145,7 +145,7 @@ def G(name, src, entry, enforce=None, replace=None, link=None, defs=None, loops=
                  finding=finding, replay=replay, solver=solver, noreach=noreach,
                  stubs=stubs or [], object_bits=object_bits, note=note,
                  selftest=selftest, only_finding=only_finding, enforce_none=enforce_none,
-                 genbody=genbody, cflags=cflags or [], dfcc=dfcc, replace_calls=replace_calls or [], split=split, drop_unused=drop_unused)
+                 genbody=genbody, cflags=cflags or [], dfcc=dfcc, replace_calls=replace_calls or [], split=split, drop_unused=drop_unused, pre_unwind=pre_unwind or [])
 
 
 def load_checks(pid):
@@ -223,6 +223,14 @@ def build_group(g, gen, wd, extra_defs=()):
         if r["rc"] != 0:
             raise Undecided("goto-instrument --drop-unused-functions failed for %s: %s" % (g.name, (r["err"] + r["out"])[-800:]))
         a = a4
+    if g.get("pre_unwind"):
+        # constant-trip inner loops of a loop under contract are unwound (with unwinding assertions) before the
+        # loop-contract pass, which refuses an inner loop without a contract: entries "<function>.<loop>:<N>"
+        a5 = os.path.join(wd, "a_pu.gb")
+        r = run(["goto-instrument", "--unwindset", ",".join(g.pre_unwind), "--unwinding-assertions", a, a5], timeout=600, mem_gb=12)
+        if r["rc"] != 0:
+            raise Undecided("goto-instrument --unwindset failed for %s: %s" % (g.name, (r["err"] + r["out"])[-800:]))
+        a = a5
     if g.get("dfcc", True):
         cmd = ["goto-instrument", "--no-malloc-may-fail", "--dfcc", g.entry]
     else:
